@@ -920,4 +920,4 @@ mod test {
 
 #[cfg(kani)]
 #[path = "/verif/kani/set.rs"]
-mod verif_kani;
+pub(crate) mod verif_kani;
